@@ -122,8 +122,10 @@ type CallRec struct {
 func (e *NetEnv) Dial(ctx context.Context, network, addr string) (net.Conn, error) {
 	e.Dials++
 	e.DialAddrs = append(e.DialAddrs, network+"!"+addr)
-	if err := ctx.Err(); err != nil {
-		return nil, &net.OpError{Op: "dial", Net: network, Err: err}
+	if ctx != nil {
+		if err := ctx.Err(); err != nil {
+			return nil, &net.OpError{Op: "dial", Net: network, Err: err}
+		}
 	}
 	if e.DialBlocks {
 		// a dial function that negotiates before it returns (a TLS or proxy dialer) against a
